@@ -115,7 +115,7 @@ func (c c10Case) String() string {
 		fmt.Fprintf(&sb, " actor=%v", *c.Actor)
 	}
 	if c.BlockObj != nil {
-		fmt.Fprintf(&sb, " blocked=%v", *c.BlockObj)
+		fmt.Fprintf(&sb, " object=%v", *c.BlockObj)
 	}
 	return sb.String()
 }
@@ -167,9 +167,12 @@ func c10Run(c c10Case) (ds []keyed, dupPattern string) {
 	}
 	blockedKey := ""
 	if c.BlockObj != nil {
+		// the activity's object; only a Block takes it out of the addressees
 		b := c10Item(*c.BlockObj, 2)
 		v.FieldByName("Object").Set(reflect.ValueOf(&b).Elem())
-		blockedKey = c10Key(b)
+		if c.VType == "Block" {
+			blockedKey = c10Key(b)
+		}
 	}
 
 	// ---- reference scan, written from the statement
@@ -232,7 +235,7 @@ func c10Run(c c10Case) (ds []keyed, dupPattern string) {
 		got = p.Interface().(interface{ Recipients() ap.ItemCollection }).Recipients()
 	})
 	cls := c.GoType
-	if c.BlockObj != nil {
+	if c.BlockObj != nil && c.VType == "Block" {
 		cls = "Block"
 	}
 	if pi != nil {
@@ -279,7 +282,7 @@ func TestC10(t *testing.T) {
 	r := ev.Open(t, "C10")
 	defer r.Close(t)
 	r.Rule("pairs: over the 4-entry alphabet {alice as IRI, bob as IRI, alice as embedded actor, nil} all 85 lists of length <= 3, every ordered pair of lists assigned to every pair of " +
-		"to/cc/bto/bcc for Object, Activity and Block activities (blocked = alice); random: all five addressing properties (+actor), lists up to 8 over 5 addressees incl. the public collection " +
+		"to/cc/bto/bcc for Object, Create, Block and Ignore activities (object = alice for the last two; only the Block leaves her out); random: all five addressing properties (+actor), lists up to 8 over 5 addressees incl. the public collection " +
 		"in IRI / embedded actor / embedded object / scheme-case-trailing-slash variant presentations and nil entries, all 13 types with Recipients(). Oracle: reference first-mention scan " +
 		"(to, cc, bto, bcc, [actor], audience) under the IRI normaliser ignoring scheme; returned list and the four lists after the call are compared; Block clause. " +
 		"near: the same pair enumeration over {alice, alice?page=1, an object alice?page=1&page=2}: three different addressees whose ids differ only in the query, two addressees named by acct: URIs, a collection object as an addressee and an embedded actor without an id (not an addressee; it stays in its list and ends nothing). " +
@@ -340,7 +343,7 @@ func TestC10(t *testing.T) {
 	}
 	if r.WantLayer("pairs", true) {
 		props := []string{"To", "CC", "Bto", "BCC"}
-		variants := []struct{ gt, vt string }{{"Object", "Note"}, {"Activity", "Create"}, {"Activity", "Block"}}
+		variants := []struct{ gt, vt string }{{"Object", "Note"}, {"Activity", "Create"}, {"Activity", "Block"}, {"Activity", "Ignore"}}
 		total, done := 0, 0
 		for _, vr := range variants {
 			for a := 0; a < len(props); a++ {
@@ -349,7 +352,8 @@ func TestC10(t *testing.T) {
 						for _, lb := range lists {
 							total++
 							c := c10Case{GoType: vr.gt, VType: vr.vt, Lists: map[string][]c10Entry{props[a]: la, props[b]: lb}}
-							if vr.vt == "Block" {
+							if vr.vt == "Block" || vr.vt == "Ignore" {
+								// the object is alice, who is also addressed: only the Block leaves her out
 								c.BlockObj = &c10Entry{0, "iri"}
 							}
 							cell := c.String()
@@ -407,7 +411,7 @@ func TestC10(t *testing.T) {
 				c.Actor = &e
 			}
 		}
-		if c.VType == "Block" {
+		if c.VType == "Block" || (gt == "Activity" && rapid.Bool().Draw(t, "object-is-addressee")) {
 			e := c10Entry{rapid.IntRange(0, npool-1).Draw(t, "blocked"), rapid.SampledFrom([]string{"iri", "actor", "object"}).Draw(t, "blockedform")}
 			c.BlockObj = &e
 		}
@@ -420,8 +424,10 @@ func TestC10(t *testing.T) {
 		if hasVariant {
 			labels = append(labels, "random has=variant")
 		}
-		if c.BlockObj != nil {
+		if c.BlockObj != nil && c.VType == "Block" {
 			labels = append(labels, "random has=block")
+		} else if c.BlockObj != nil {
+			labels = append(labels, "random has=object-among-addressees")
 		}
 		r.Case(canon, dup != "", labels...)
 		r.Sample(canon, map[string]interface{}{"layer": "random", "case": canon})
